@@ -64,15 +64,21 @@ structure CInvH (c : Ctx) (root : List Slot) (temps : List Ptr) (hole : Option N
 
 abbrev CInv (c : Ctx) (root : List Slot) (temps : List Ptr) : Prop := CInvH c root temps none
 
-/-- What an issued barrier guarantees for as long as no collection call intervenes (T4). -/
+/-- What an issued barrier guarantees for as long as no collection call intervenes (T4):
+    the objects it names are allocated, and in the mark phase their colours license the store. -/
 def CoverOK (c : Ctx) : Cover → Prop
-  | .parent p => c.phase = .mark → ∀ o, c.heap.get p = some o → o.needsTrace = true → o.color ≠ .black
-  | .child ch => c.phase = .mark → ∀ o, c.heap.get ch = some o → o.color = .gray ∨ o.color = .black
-  | .weakChild ch => c.phase = .mark → ∀ o, c.heap.get ch = some o → o.color ≠ .white
-  | .pair p ch => c.phase = .mark → ∀ o, c.heap.get p = some o → o.needsTrace = true → o.color = .black →
-      ∀ co, c.heap.get ch = some co → co.color = .gray ∨ co.color = .black
-  | .weakPair p ch => c.phase = .mark → ∀ o, c.heap.get p = some o → o.needsTrace = true → o.color = .black →
-      ∀ co, c.heap.get ch = some co → co.color ≠ .white
+  | .parent p => (∃ o, c.heap.get p = some o) ∧
+      (c.phase = .mark → ∀ o, c.heap.get p = some o → o.needsTrace = true → o.color ≠ .black)
+  | .child ch => (∃ o, c.heap.get ch = some o) ∧
+      (c.phase = .mark → ∀ o, c.heap.get ch = some o → o.color = .gray ∨ o.color = .black)
+  | .weakChild ch => (∃ o, c.heap.get ch = some o) ∧
+      (c.phase = .mark → ∀ o, c.heap.get ch = some o → o.color ≠ .white)
+  | .pair p ch => (∃ o, c.heap.get p = some o) ∧ (∃ o, c.heap.get ch = some o) ∧
+      (c.phase = .mark → ∀ o, c.heap.get p = some o → o.needsTrace = true → o.color = .black →
+        ∀ co, c.heap.get ch = some co → co.color = .gray ∨ co.color = .black)
+  | .weakPair p ch => (∃ o, c.heap.get p = some o) ∧ (∃ o, c.heap.get ch = some o) ∧
+      (c.phase = .mark → ∀ o, c.heap.get p = some o → o.needsTrace = true → o.color = .black →
+        ∀ co, c.heap.get ch = some co → co.color ≠ .white)
 
 /-- The invariant of an arena between API-level operations. -/
 structure Inv (a : Arena) : Prop where
@@ -81,6 +87,7 @@ structure Inv (a : Arena) : Prop where
   cover : ∀ cv, cv ∈ a.cover → CoverOK a.ctx cv
   cbTemps : a.cb = none → a.temps = []
   finMark : a.cb = some .finalize → a.ctx.phase = .mark
+  rootCb : a.cb = some .mutateRoot → a.ctx.phase = .mark → a.ctx.rootNeedsTrace = true
   markedMark : a.marked = true → a.ctx.phase = .mark ∧ a.cb = none
 
 /-! ### User-level notions (no colours, phases, lists or queues) -/
